@@ -4,8 +4,7 @@ package checks
 
 import (
 	"bytes"
-	"encoding/binary"
-	"fmt"
+		"fmt"
 
 	verifrt "github.com/contiv/libOpenflow/verifrt"
 
@@ -63,47 +62,40 @@ func c11Check(r *ev.Run, distinct map[string]bool) func(run *streamRun, x *verif
 		for _, w := range run.conn.written {
 			wire = append(wire, w...)
 		}
-		// re-frame by header length
-		var frames [][]byte
-		for off := 0; off < len(wire); {
-			if len(wire)-off < 8 {
-				bad("torn-frame", fmt.Sprintf("%d stray bytes at the end of the written stream", len(wire)-off))
-				return
-			}
-			l := int(binary.BigEndian.Uint16(wire[off+2:]))
-			if l < 8 || off+l > len(wire) {
-				bad("torn-frame", fmt.Sprintf("frame at offset %d declares %d bytes, %d are left", off, l, len(wire)-off))
-				return
-			}
-			frames = append(frames, wire[off:off+l])
-			off += l
-		}
-		// multiset and per-producer order
+		// the written stream must be a concatenation of the submitted encodings, each producer's in
+		// its submission order (every submission carries a distinct transaction id, so the next
+		// frame is identified by its bytes, not by trusting the length field of what was written)
 		next := make([]int, len(sc.Producers))
 		order := ""
-		for _, f := range frames {
+		for off := 0; off < len(wire); {
 			found := false
 			for pi := range sc.Producers {
-				if next[pi] < len(run.submitted[pi]) && bytes.Equal(run.submitted[pi][next[pi]], f) {
+				if next[pi] < len(run.submitted[pi]) && bytes.HasPrefix(wire[off:], run.submitted[pi][next[pi]]) {
+					off += len(run.submitted[pi][next[pi]])
 					next[pi]++
 					found = true
 					order += fmt.Sprint(pi)
 					break
 				}
 			}
-			if !found {
-				// is it a submitted frame at all (out of order / duplicated) or garbage?
-				what := "bytes that are no submitted message"
-				for pi := range run.submitted {
-					for k, s := range run.submitted[pi] {
-						if bytes.Equal(s, f) {
-							what = fmt.Sprintf("message %d of producer %d again or out of its submission order", k, pi)
-						}
+			if found {
+				continue
+			}
+			// what is at this position instead?
+			what := fmt.Sprintf("bytes that are not the next message of any producer (%x...)", head(wire[off:], 12))
+			sig := "torn-frame"
+			for pi := range run.submitted {
+				for k, sub := range run.submitted[pi] {
+					if bytes.HasPrefix(wire[off:], sub) {
+						what = fmt.Sprintf("message %d of producer %d again or out of its submission order", k, pi)
+						sig = "order-or-duplicate"
+					} else if len(sub) >= 8 && len(wire)-off >= 8 && bytes.Equal(wire[off:off+8], sub[:8]) && sig == "torn-frame" {
+						what = fmt.Sprintf("the beginning of message %d of producer %d, but not the whole of it (%d bytes left on the wire, the message has %d)", k, pi, len(wire)-off, len(sub))
 					}
 				}
-				bad("order-or-duplicate", "the connection received "+what)
-				return
 			}
+			bad(sig, fmt.Sprintf("at offset %d the connection received %s", off, what))
+			return
 		}
 		for pi := range sc.Producers {
 			if next[pi] != len(run.submitted[pi]) {
@@ -175,8 +167,18 @@ func c11RunScenario(r *ev.Run, sc streamScenario, distinct map[string]bool) {
 		}
 		sc.Producers = [][]int{append(body, 0)}
 	}
+	if len(sc.OutKinds) > 0 {
+		// kind sweep: one producer submits echo, one message of each listed kind, echo; default schedule
+		all := c11AllKinds()
+		body := []int{0}
+		for _, k := range sc.OutKinds {
+			body = append(body, len(out))
+			out = append(out, all[k])
+		}
+		sc.Producers = [][]int{append(body, 0)}
+	}
 	e, _ := newStreamExplorer(sc, frames, out, c11Check(r, distinct), r.Deadline)
-	if len(sc.OutSizes) > 0 && sc.Sched == nil {
+	if (len(sc.OutSizes) > 0 || len(sc.OutKinds) > 0) && sc.Sched == nil {
 		e.KeyFn = nil
 		e.RunOne(nil)
 		r.Add("size_sweep_executions", 1)
@@ -197,6 +199,36 @@ func c11RunScenario(r *ev.Run, sc streamScenario, distinct map[string]bool) {
 	if int64(e.MaxDepth) > r.Counter("max_depth") {
 		r.Add("max_depth", int64(e.MaxDepth)-r.Counter("max_depth"))
 	}
+}
+
+// c11AllKinds: one message of every kind the library can encode (controller-originated kinds
+// through their constructors, switch-originated kinds as the parser builds them).
+func c11AllKinds() []*wire.N {
+	var out []*wire.N
+	seen := map[string]bool{}
+	add := func(n *wire.N) {
+		if hasUndecodableOxm(n) || (n.K == "packet_in" && len(n.B["Data"]) == 0) {
+			return
+		}
+		k := rootSig(n)
+		if !seen[k] {
+			seen[k] = true
+			out = append(out, n)
+		}
+	}
+	never := func() bool { return false }
+	corpus.Controller(false, never, func(string, bool) {}, func(n *wire.N) {
+		if modelSize(n) < 4000 {
+			add(n)
+		}
+	})
+	for _, n := range c04Bases() {
+		if n.K == "multipart_reply" && of10Root(rootSig(n)) {
+			continue
+		}
+		add(n)
+	}
+	return out
 }
 
 // c11Sizes: total frame sizes of the outbound size sweep.
@@ -240,12 +272,27 @@ func c11Worker(w *Worker) {
 		}
 		scs = append(scs, streamScenario{OutSizes: sizes[i:j], FailAfter: -1, Bound: 0, ShutAt: -1})
 	}
+	nk := len(c11AllKinds())
+	for i := 0; i < nk; i += 4 {
+		j := i + 4
+		if j > nk {
+			j = nk
+		}
+		var ks []int
+		for k := i; k < j; k++ {
+			ks = append(ks, k)
+		}
+		scs = append(scs, streamScenario{OutKinds: ks, FailAfter: -1, Bound: 0, ShutAt: -1})
+	}
+	if w.Index == 0 {
+		w.Set("outbound_kinds_swept", nk)
+	}
 	for i, sc := range scs {
 		if !w.Mine(int64(i)) || w.Expired() {
 			continue
 		}
 		c11RunScenario(w.Run, sc, distinct)
-		if i%7 == 0 && len(sc.OutSizes) == 0 {
+		if i%7 == 0 && len(sc.OutSizes) == 0 && len(sc.OutKinds) == 0 {
 			w.Sample(map[string]any{"producers": sc.Producers})
 		}
 	}
@@ -273,6 +320,7 @@ func c11(r *ev.Run, replay string) {
 		lv += "; 3 producers x 2 messages each"
 	}
 	r.Completed(lv)
+	r.Completed("kind sweep: one producer submitting one message of every encodable kind and command/type variant (controller-originated through the constructors, switch-originated as the parser builds them), default schedule")
 	if r.Thorough() {
 		r.Completed("size sweep: one producer submitting echo, packet-out of EVERY total size 24..65535, echo (default schedule)")
 	} else {
